@@ -442,6 +442,7 @@ _NM = "nonmatching(" + _PGS + ", " + _HV + ", {}, 0)"
 _DIFF = "twobytwo_differs(" + _PGS + ", " + _HV + ", {}, {}, 0)"
 contract(
     "ufo2ft.preProcessor:TTFInterpolatablePreProcessor.check_for_nonmatching_components",
+    portfolio=["z3-5.1", "z3-5.1/ematch"],  # assert.hint@L546: solver order only (notes/SLOW.txt round 4)
     props=["C09"],
     params={"self": Ref("SXTTFPre"), "needs_decomposition": Set(STR)},
     requires=[f"len({_PGS}) > 0"],  # set.union(*[...]) needs at least one glyph set (BaseInterpolatablePreProcessor is built from >= 1 UFO)
@@ -742,6 +743,7 @@ ifilter_summaries("SXDOFilter", False)
 _fr = CONTRACTS[_DF + "#framed"]
 contract(
     _DF, name="framedO", props=["C09"],
+    portfolio=["z3-5.1", "z3-5.1/noext"],  # inv.step.others@L35: solver order only
     params={**_fr.params, "self": Ref("SXDOFilter")}, returns=BOOL, calls=dict(_fr.calls), globals=dict(_fr.globals), requires=list(_fr.requires),
     ensures=dict(_fr.ensures), canaries=dict(_fr.canaries), modifies=list(_fr.modifies), ghost_vars=dict(_fr.ghost_vars), ghost=dict(_fr.ghost),
     hints=dict(_fr.hints), loops={k: Loop(index=v.index, invariants=dict(v.invariants)) for k, v in _fr.loops.items()}, merge_branches=False,
@@ -1126,6 +1128,7 @@ _QUIET = "(not self.flattenComponents and (self.convertCubics or not self._rever
 
 contract(
     "ufo2ft.preProcessor:TTFInterpolatablePreProcessor.process",
+    portfolio=["z3-5.1", "z3-5.1/ematch"],  # post.decompose-set#4: solver order only
     props=["C09"],
     params={"self": Ref("SXTTFPre")},
     returns=List(Ref("SXGlyphSet")),
